@@ -23,7 +23,7 @@ def packBits : List Bool → Nat
 
 /-- `encode_packed_coils` -/
 def packCoils (coils : List Bool) : Bytes :=
-  if h : coils = [] then [] else
+  if _h : coils = [] then [] else
     UInt8.ofNat (packBits (coils.take 8)) :: packCoils (coils.drop 8)
 termination_by coils.length
 decreasing_by
@@ -167,64 +167,86 @@ def decCoil {α} (f : UInt16 → Bool → α) : Bytes → Res α
     | some v => if rest.isEmpty then ok (f (rd16 a b) v) else err .invalidData
   | _ => err .unexpectedEof
 
+/-- `match fn_code { k => arm, …, _ => default }`: the arms of a decoder, keyed by function
+    code (thunks, so that only the selected arm is evaluated) -/
+def dispatch {α} (fc : UInt8) (table : List (UInt8 × (Unit → α))) (dflt : Unit → α) : α :=
+  match table.lookup fc with
+  | some arm => arm ()
+  | none => dflt ()
+
 open Res in
-/-- `decode_request_pdu_bytes` (after the fixes D1 and D2) -/
+/-- request arm 0x0F (after the fix D1) -/
+def decWriteMultipleCoils (bytes rest : Bytes) : Res Request :=
+  if bytes.length > MAX_PDU_SIZE then err .invalidData else
+  match rest with
+  | a :: b :: c :: d :: bc :: tail =>
+    let quantity := rd16 c d
+    let byteCount := bc.toNat
+    if bytes.length < 6 + byteCount then err .invalidData
+    else if quantity.toNat > byteCount * 8 then err .invalidData
+    else
+      match unpackCoils (tail.take byteCount) quantity.toNat with
+      | none => panic
+      | some coils =>
+        if (tail.drop byteCount).isEmpty then ok (.writeMultipleCoils (rd16 a b) coils)
+        else err .invalidData
+  | _ => err .unexpectedEof
+
+open Res in
+/-- request arm 0x10 (after the fix D2) -/
+def decWriteMultipleRegisters (bytes rest : Bytes) : Res Request :=
+  if bytes.length > MAX_PDU_SIZE then err .invalidData else
+  match rest with
+  | a :: b :: c :: d :: bc :: tail =>
+    let quantity := rd16 c d
+    if bc.toNat ≠ quantity.toNat * 2 then err .invalidData
+    else
+      match readWords quantity.toNat tail with
+      | none => err .unexpectedEof
+      | some (ws, r) =>
+        if r.isEmpty then ok (.writeMultipleRegisters (rd16 a b) ws) else err .invalidData
+  | _ => err .unexpectedEof
+
+open Res in
+/-- request arm 0x17 (after the fix D2) -/
+def decReadWriteMultipleRegisters (bytes rest : Bytes) : Res Request :=
+  if bytes.length > MAX_PDU_SIZE then err .invalidData else
+  match rest with
+  | a :: b :: c :: d :: e :: f :: g :: h :: wc :: tail =>
+    let writeQuantity := rd16 g h
+    if wc.toNat ≠ writeQuantity.toNat * 2 then err .invalidData
+    else
+      match readWords writeQuantity.toNat tail with
+      | none => err .unexpectedEof
+      | some (ws, r) =>
+        if r.isEmpty then
+          ok (.readWriteMultipleRegisters (rd16 a b) (rd16 c d) (rd16 e f) ws)
+        else err .invalidData
+  | _ => err .unexpectedEof
+
+open Res in
+/-- the arms of `decode_request_pdu_bytes`, by function code -/
+def requestArms (bytes rest : Bytes) : List (UInt8 × (Unit → Res Request)) :=
+  [ (0x01, fun _ => dec2 .readCoils rest),
+    (0x02, fun _ => dec2 .readDiscreteInputs rest),
+    (0x05, fun _ => decCoil .writeSingleCoil rest),
+    (0x0F, fun _ => decWriteMultipleCoils bytes rest),
+    (0x04, fun _ => dec2 .readInputRegisters rest),
+    (0x03, fun _ => dec2 .readHoldingRegisters rest),
+    (0x06, fun _ => dec2 .writeSingleRegister rest),
+    (0x10, fun _ => decWriteMultipleRegisters bytes rest),
+    (0x11, fun _ => if rest.isEmpty then ok .reportServerId else err .invalidData),
+    (0x16, fun _ => dec3 .maskWriteRegister rest),
+    (0x17, fun _ => decReadWriteMultipleRegisters bytes rest) ]
+
+open Res in
+/-- `decode_request_pdu_bytes` -/
 def decodeRequest (bytes : Bytes) : Res Request :=
   match bytes with
   | [] => err .unexpectedEof
   | fc :: rest =>
-    if fc = 0x01 then dec2 .readCoils rest
-    else if fc = 0x02 then dec2 .readDiscreteInputs rest
-    else if fc = 0x05 then decCoil .writeSingleCoil rest
-    else if fc = 0x0F then
-      if bytes.length > MAX_PDU_SIZE then err .invalidData else
-      match rest with
-      | a :: b :: c :: d :: bc :: tail =>
-        let quantity := rd16 c d
-        let byteCount := bc.toNat
-        if bytes.length < 6 + byteCount then err .invalidData
-        else if quantity.toNat > byteCount * 8 then err .invalidData
-        else
-          match unpackCoils (tail.take byteCount) quantity.toNat with
-          | none => panic
-          | some coils =>
-            if (tail.drop byteCount).isEmpty then ok (.writeMultipleCoils (rd16 a b) coils)
-            else err .invalidData
-      | _ => err .unexpectedEof
-    else if fc = 0x04 then dec2 .readInputRegisters rest
-    else if fc = 0x03 then dec2 .readHoldingRegisters rest
-    else if fc = 0x06 then dec2 .writeSingleRegister rest
-    else if fc = 0x10 then
-      if bytes.length > MAX_PDU_SIZE then err .invalidData else
-      match rest with
-      | a :: b :: c :: d :: bc :: tail =>
-        let quantity := rd16 c d
-        if bc.toNat ≠ quantity.toNat * 2 then err .invalidData
-        else
-          match readWords quantity.toNat tail with
-          | none => err .unexpectedEof
-          | some (ws, r) =>
-            if r.isEmpty then ok (.writeMultipleRegisters (rd16 a b) ws) else err .invalidData
-      | _ => err .unexpectedEof
-    else if fc = 0x11 then
-      if rest.isEmpty then ok .reportServerId else err .invalidData
-    else if fc = 0x16 then dec3 .maskWriteRegister rest
-    else if fc = 0x17 then
-      if bytes.length > MAX_PDU_SIZE then err .invalidData else
-      match rest with
-      | a :: b :: c :: d :: e :: f :: g :: h :: wc :: tail =>
-        let writeQuantity := rd16 g h
-        if wc.toNat ≠ writeQuantity.toNat * 2 then err .invalidData
-        else
-          match readWords writeQuantity.toNat tail with
-          | none => err .unexpectedEof
-          | some (ws, r) =>
-            if r.isEmpty then
-              ok (.readWriteMultipleRegisters (rd16 a b) (rd16 c d) (rd16 e f) ws)
-            else err .invalidData
-      | _ => err .unexpectedEof
-    else if fc < 0x80 then ok (.custom fc rest)
-    else err .invalidData
+    dispatch fc (requestArms bytes rest)
+      (fun _ => if fc < 0x80 then ok (.custom fc rest) else err .invalidData)
 
 open Res in
 /-- byte-counted packed coils of a read-coils / read-discrete-inputs response -/
@@ -249,44 +271,47 @@ def decRegs {α} (f : List UInt16 → α) : Bytes → Res α
       | some (ws, r) => if r.isEmpty then ok (f ws) else err .invalidData
 
 open Res in
+/-- response arm 0x11 (without the size check) -/
+def decReportServerId (rest : Bytes) : Res Response :=
+  match rest with
+  | [] => err .unexpectedEof
+  | bc :: tail =>
+    if bc.toNat < 2 then err .invalidData else
+    match tail with
+    | id :: run :: tail2 =>
+      if run = 0x00 ∨ run = 0xFF then
+        match readBytes (bc.toNat - 2) tail2 with
+        | none => err .unexpectedEof
+        | some (data, r) =>
+          if r.isEmpty then ok (.reportServerId id (run = 0xFF) data) else err .invalidData
+      else err .invalidData
+    | _ => err .unexpectedEof
+
+open Res in
+/-- `check_response_pdu_size(pdu_size)?` in front of an arm -/
+def sized (bytes : Bytes) (arm : Res Response) : Res Response :=
+  if bytes.length > MAX_PDU_SIZE then err .invalidInput else arm
+
+/-- the arms of `decode_response_pdu_bytes`, by function code -/
+def responseArms (bytes rest : Bytes) : List (UInt8 × (Unit → Res Response)) :=
+  [ (0x01, fun _ => sized bytes (decBits .readCoils bytes.length rest)),
+    (0x02, fun _ => sized bytes (decBits .readDiscreteInputs bytes.length rest)),
+    (0x05, fun _ => decCoil .writeSingleCoil rest),
+    (0x0F, fun _ => dec2 .writeMultipleCoils rest),
+    (0x04, fun _ => sized bytes (decRegs .readInputRegisters rest)),
+    (0x03, fun _ => sized bytes (decRegs .readHoldingRegisters rest)),
+    (0x06, fun _ => dec2 .writeSingleRegister rest),
+    (0x10, fun _ => dec2 .writeMultipleRegisters rest),
+    (0x11, fun _ => sized bytes (decReportServerId rest)),
+    (0x16, fun _ => dec3 .maskWriteRegister rest),
+    (0x17, fun _ => sized bytes (decRegs .readWriteMultipleRegisters rest)) ]
+
+open Res in
 /-- `decode_response_pdu_bytes` -/
 def decodeResponse (bytes : Bytes) : Res Response :=
   match bytes with
   | [] => err .unexpectedEof
-  | fc :: rest =>
-    if fc = 0x01 then
-      if bytes.length > MAX_PDU_SIZE then err .invalidInput else decBits .readCoils bytes.length rest
-    else if fc = 0x02 then
-      if bytes.length > MAX_PDU_SIZE then err .invalidInput
-      else decBits .readDiscreteInputs bytes.length rest
-    else if fc = 0x05 then decCoil .writeSingleCoil rest
-    else if fc = 0x0F then dec2 .writeMultipleCoils rest
-    else if fc = 0x04 then
-      if bytes.length > MAX_PDU_SIZE then err .invalidInput else decRegs .readInputRegisters rest
-    else if fc = 0x03 then
-      if bytes.length > MAX_PDU_SIZE then err .invalidInput else decRegs .readHoldingRegisters rest
-    else if fc = 0x06 then dec2 .writeSingleRegister rest
-    else if fc = 0x10 then dec2 .writeMultipleRegisters rest
-    else if fc = 0x11 then
-      if bytes.length > MAX_PDU_SIZE then err .invalidInput else
-      match rest with
-      | [] => err .unexpectedEof
-      | bc :: tail =>
-        if bc.toNat < 2 then err .invalidData else
-        match tail with
-        | id :: run :: tail2 =>
-          if run = 0x00 ∨ run = 0xFF then
-            match readBytes (bc.toNat - 2) tail2 with
-            | none => err .unexpectedEof
-            | some (data, r) =>
-              if r.isEmpty then ok (.reportServerId id (run = 0xFF) data) else err .invalidData
-          else err .invalidData
-        | _ => err .unexpectedEof
-    else if fc = 0x16 then dec3 .maskWriteRegister rest
-    else if fc = 0x17 then
-      if bytes.length > MAX_PDU_SIZE then err .invalidInput
-      else decRegs .readWriteMultipleRegisters rest
-    else ok (.custom fc rest)
+  | fc :: rest => dispatch fc (responseArms bytes rest) (fun _ => ok (.custom fc rest))
 
 open Res in
 /-- `impl TryFrom<Bytes> for ExceptionResponse` -/
